@@ -312,7 +312,8 @@ def handleOpt (st : DrvState) (toks : List String) : Option (DrvState × String)
       let rng ← parseRng? ((kvGet kv "rng").getD "")
       let init ← parseInit? ((kvGet kv "init").getD "")
       let eqv ← optKey kv "eqv" namedEqv
-      pure ({ res := .coll cfg (Coll.init cfg init rng), eqv := eqv, subs := [] }, "ok")
+      -- `NewCollection` keeps an initial record under the id interceptor's image of its id (fix 215ba16)
+      pure ({ res := .coll cfg (Coll.init cfg (init.map (fun kv => (icptId cfg kv.1, kv.2))) rng), eqv := eqv, subs := [] }, "ok")
     | "newv", _ =>
       let cfg ← parseCfg? kv
       let init ← optKey kv "init" parseMsg?
